@@ -156,6 +156,61 @@ pub mod env {
         std::mem::forget((st, ex, d, on_peer, peer));
         (ts, served)
     }
+    /// C06 glue: what the executor ends up serving for key "k" (string value, hash fields "f" and "g") after the deltas
+    /// `first` (optional) and `second` have gone through ReplicatedShardActor::apply_remote_delta_impl, together with
+    /// the replication state of "k". Kani: S11-extracted method; the executor is a recorder (stub kind recexec) whose
+    /// log is replayed on a three-cell model of SET/DEL/HSET/HDEL. Natively: the real actor and executor.
+    /// -> (replication state of k, served string, served f, served g, executor was asked something else)
+    pub fn glue_apply(first: Option<redis_sim::replication::state::ReplicatedValue>, second: redis_sim::replication::state::ReplicatedValue)
+        -> (Option<redis_sim::replication::state::ReplicatedValue>, Option<u8>, Option<u8>, Option<u8>, bool) {
+        use redis_sim::replication::config::ConsistencyLevel;
+        use redis_sim::replication::lattice::ReplicaId;
+        use redis_sim::replication::state::{ReplicationDelta, ShardReplicaState};
+        let mut st = ShardReplicaState::new(ReplicaId(1), ConsistencyLevel::Eventual);
+        let mut ex = redis_sim::redis::CommandExecutor::verif_new_bare();
+        let (mut sv, mut fv, mut gv, mut other) = (None, None, None, false);
+        unsafe { crate::stubs::REC_N = 0; }
+        macro_rules! replay { () => { unsafe {
+            macro_rules! one { ($i:literal) => { if crate::stubs::REC_N > $i { let (k, a, b) = crate::stubs::REC[$i]; match k {
+                1 => { sv = Some(a); fv = None; gv = None; }
+                2 => { sv = None; fv = None; gv = None; }
+                3 => { sv = None; if a == b'f' { fv = Some(b); } else if a == b'g' { gv = Some(b); } else { other = true; } }
+                4 => { if a == b'f' { fv = None; } else if a == b'g' { gv = None; } else { other = true; } }
+                _ => { other = true; } } } } }
+            one!(0); one!(1); one!(2); one!(3); one!(4); one!(5);
+            if crate::stubs::REC_N > 6 { other = true; }
+            crate::stubs::REC_N = 0;
+        } } }
+        if let Some(v) = first {
+            let src = ReplicaId(v.timestamp.replica_id.0);
+            redis_sim::production::verif_apply_remote_delta_impl(&mut st, &mut ex, ReplicationDelta::new("k".to_string(), v, src));
+            replay!();
+        }
+        let src = ReplicaId(second.timestamp.replica_id.0);
+        redis_sim::production::verif_apply_remote_delta_impl(&mut st, &mut ex, ReplicationDelta::new("k".to_string(), second, src));
+        replay!();
+        let merged = st.replicated_keys.get("k").cloned();
+        std::mem::forget((st, ex));
+        (merged, sv, fv, gv, other)
+    }
+    /// C08: the shard's Lamport clock after `cmd` went through ReplicatedShardActor::record_mutation_post_execute on a
+    /// shard whose clock read `clock0` (the executor holds nothing). Natively: the real actor, observed through the stamp
+    /// of the next write.
+    pub fn clock_after_command(clock0: u64, which: u8) -> u64 {
+        use redis_sim::redis::Command;
+        use redis_sim::replication::config::ConsistencyLevel;
+        use redis_sim::replication::lattice::ReplicaId;
+        use redis_sim::replication::state::ShardReplicaState;
+        let mut st = ShardReplicaState::new(ReplicaId(1), ConsistencyLevel::Eventual);
+        st.lamport_clock.time = clock0;
+        let mut ex = redis_sim::redis::CommandExecutor::verif_new_bare();
+        let cmd = crate::scenarios::c08::command_of(which);
+        let d = redis_sim::production::verif_record_mutation_post_execute(&mut st, &mut ex, &cmd);
+        let d2 = st.record_write("k".to_string(), crate::scenarios::util::sds1(b'n'), None);
+        let t = d2.value.timestamp.time;
+        std::mem::forget((st, ex, cmd, d, d2));
+        t
+    }
     /// does run() answer the `count` GETs its collector consumed from this buffer, at this threshold?
     /// (Kani: run()'s own admission condition, extracted by S3; natively: the real run() over a duplex stream)
     pub fn consumed_gets_answered(_buffer: &[u8], count: usize, threshold: usize) -> bool {
@@ -278,6 +333,21 @@ macro_rules! registry {
         #[kani::stub(parking_lot::raw_mutex::RawMutex::lock_slow, crate::stubs::pl_lock_slow)]
         #[kani::stub(parking_lot::raw_mutex::RawMutex::unlock_slow, crate::stubs::pl_unlock_slow)]
         #[kani::stub(redis_sim::redis::CommandExecutor::execute, crate::stubs::noop_execute)]
+        pub fn $name() { $body }
+    };
+    (@one $name:ident, $unwind:literal, recexec, $body:expr) => {
+        #[kani::proof]
+        #[kani::unwind($unwind)]
+        #[kani::stub(alloc::fmt::format, crate::stubs::stub_format)]
+        #[kani::stub(core::ptr::align_offset, crate::stubs::no_align_offset)]
+        #[kani::stub(str::to_uppercase, crate::stubs::ascii_upper)]
+        #[kani::stub(core::arch::x86_64::__cpuid_count, crate::stubs::fake_cpuid)]
+        #[kani::stub(tracing_core::callsite::DefaultCallsite::interest, crate::stubs::stub_interest)]
+        #[kani::stub(tracing::__macro_support::__is_enabled, crate::stubs::stub_is_enabled)]
+        #[kani::stub(tracing_core::event::Event::dispatch, crate::stubs::stub_dispatch)]
+        #[kani::stub(parking_lot::raw_mutex::RawMutex::lock_slow, crate::stubs::pl_lock_slow)]
+        #[kani::stub(parking_lot::raw_mutex::RawMutex::unlock_slow, crate::stubs::pl_unlock_slow)]
+        #[kani::stub(redis_sim::redis::CommandExecutor::execute, crate::stubs::rec_execute)]
         pub fn $name() { $body }
     };
     (@one $name:ident, $unwind:literal, alloc, $body:expr) => {
